@@ -101,7 +101,7 @@ def execute(key, info, njobs, kind, prefix, rng=None, preempt=None, max_random=0
         # they have finished (submission threads first, then monitors); then the scheduler thread performs
         # one whole _submit(); repeat.  Fuel bounds monitors that spin on a queue nobody drains.
         fuel = [FINISH_FUEL]
-        insert_lines = set(info["lines"]["insert"])
+        insert_lines = set(info["lines"].get("insert", []))
 
         def until_done(name, cap):
             n = 0
@@ -120,7 +120,7 @@ def execute(key, info, njobs, kind, prefix, rng=None, preempt=None, max_random=0
                     fuel[0] -= 1
                     do("S")
                     rec = run.det.recs["S"]
-                    if rec.status == "done" or (rec.pos[0] == "line" and rec.pos[1] in insert_lines):
+                    if rec.status == "done" or rec.pos[0] in ("lock", "submit") or (rec.pos[0] == "line" and rec.pos[1] in insert_lines):
                         break
             if (run.ad.observe(), tuple(run.threads())) == before:
                 break
@@ -253,6 +253,10 @@ class Check(PropertyCheck):
 
     # ------------------------------------------------------------------ correspond
     def correspond(self):
+        if self.info is None:
+            self.ob("correspondence", "model == real executor classes", False,
+                    "not run: the translator did not recognise the source, so there are no scheduling points")
+            return
         outs = self.executions()
         terms, used = [], []
         for o in outs:
@@ -287,11 +291,9 @@ class Check(PropertyCheck):
 
     # ------------------------------------------------------------------ oracle
     def oracle(self):
-        try:
-            outs = self.executions()
-        except RuntimeError as e:
-            self.ob("oracle", "implementation oracle ran", False, str(e))
-            return
+        if self.info is None:
+            return self.oracle_fallback()
+        outs = self.executions()
         n = 0
         seen = set()
         for o in outs:
@@ -310,6 +312,23 @@ class Check(PropertyCheck):
         self.ob("oracle", f"implementation oracle (every submitted job reported exactly once at quiescence) ran on "
                 f"{n} executions of the real executor classes", True)
 
+    def oracle_fallback(self):
+        """The translator did not recognise the source, so there are no scheduling points.  Still decide the
+        property on preemption-free executions: the scheduler thread yields before every _submit(), every
+        executor thread runs to completion when it is created (or when the scheduler thread yields)."""
+        n = 0
+        for key in KEYS:
+            sp = tr_monitor.SPECS[key]
+            info = {"file": sp["file"], "cls": sp["cls"], "lines": {"ret": []}, "locked": False, "fallback": True}
+            for njobs in (1, 2, 3):
+                out = execute(key, info, njobs, "quiet", [])
+                n += 1
+                c = classify(info, out)
+                if c and not any(f.key == c[0] for f in self.findings):
+                    self.findings.append(Finding(c[0], f"{sp['cls']} ({sp['file']}): {c[1]}; final state {out.final}",
+                                                 {"kind": "fallback", "executor": key, "njobs": njobs, "expect": c[0]}))
+        self.ob("oracle", f"fallback oracle (no scheduling points; {n} preemption-free executions of the real classes) ran", True)
+
     # ------------------------------------------------------------------ replay
     def replay(self, doc):
         r = doc.get("replay", {})
@@ -321,6 +340,14 @@ class Check(PropertyCheck):
             print("replay: final state", o.final, "all threads finished:", o.done)
             print("replay:", f"still fails: {c[0]} - {c[1]}" if c else "property holds on this schedule now")
             return 1 if c else 0
+        if r.get("kind") == "fallback":
+            self.oracle_fallback()
+            hit = [f for f in self.findings if f.replay["executor"] == r["executor"]]
+            for f in hit:
+                print("replay: still fails:", f.key, "-", f.what[:400])
+            if not hit:
+                print("replay: property holds on the preemption-free executions now")
+            return 1 if hit else 0
         print("replay: nothing to replay (no failing input was found); broken obligations:",
               json.dumps(doc.get("broken_obligations", []))[:2000])
         return 1
